@@ -11,8 +11,10 @@ import (
 	"github.com/emersion/go-message/textproto"
 	"github.com/emersion/go-smtp"
 	"github.com/foxcpp/maddy/framework/buffer"
+	"github.com/foxcpp/maddy/framework/config"
 	"github.com/foxcpp/maddy/framework/log"
 	"github.com/foxcpp/maddy/framework/module"
+	"github.com/foxcpp/maddy/internal/msgpipeline"
 	"github.com/foxcpp/maddy/internal/target/queue"
 	"github.com/foxcpp/maddy/internal/verifsim/actors"
 	"github.com/foxcpp/maddy/internal/verifsim/harness"
@@ -60,6 +62,7 @@ type World struct {
 
 	// downOverride replaces the scripted downstream (world Q-B)
 	downOverride module.DeliveryTarget
+	viaPipe      bool // C01: a message pipeline sits between the queue and the scripted downstream
 }
 
 func (w *World) msgByID(id string) *Msg {
@@ -175,7 +178,7 @@ func (w *World) producer(m *Msg, inc *simrt.Inc) func() {
 		// i.e. after Start/AddRcpt and before Body.
 		meta := &module.MsgMetadata{
 			ID:           m.ID,
-			OriginalFrom: m.From,
+			OriginalFrom: m.OrigFrom,
 			SMTPOpts:     smtp.MailOptions{UTF8: m.UTF8, RequireTLS: m.RequireTLS},
 			Conn: &module.ConnState{
 				Proto:        "ESMTPSA",
@@ -266,6 +269,33 @@ func Run(s *simrt.Sim, a *harness.Args, r *harness.Result) {
 	w.sink = &actors.ScriptedTarget{Label: "bounce", Prop: a.Prop}
 	w.sink.PlanFor = w.sinkPlanFor
 	simfs.CanonName = nil
+	if a.Prop == "C01" && s.T.Choose("scen", 4) == 0 {
+		// the queue's target is a (transparent) message pipeline in front of
+		// the scripted downstream - `target &some_pipeline`. The messages come
+		// with the rewrite history of the pipeline that accepted them
+		// (OriginalRcpts); results must still reach the queue under the
+		// addresses the queue handed over.
+		module.RegisterInstance(w.tgt, nil)
+		delete(module.Initialized, "down")
+		pipe, err := msgpipeline.New(nil, []config.Node{{Name: "deliver_to", Args: []string{"&down"}}})
+		if err != nil {
+			simrt.Harnessf("pipeline in front of the downstream: %v", err)
+		}
+		pipe.Hostname = "mx.sim.example"
+		pipe.Log = log.Logger{Out: log.NopOutput{}}
+		w.downOverride = pipe
+		w.viaPipe = true
+		// (the pipeline starts its target when the first recipient needs it
+		// and again for the next recipient if that failed: downstream
+		// transactions and queue attempts are no longer one to one. Failures
+		// of the session-start stage stay with the runs without a pipeline.)
+		for _, m := range sc.Msgs {
+			for _, pl := range m.Plans {
+				pl.Start = actors.OK
+			}
+		}
+		s.Stat("downstream_behind_pipeline")
+	}
 	if sc.Chain {
 		// the second queue stores reports under their random identifiers
 		simfs.CanonName = func(b string) string {
@@ -332,7 +362,9 @@ func Run(s *simrt.Sim, a *harness.Args, r *harness.Result) {
 		s.TimeBudget = 6
 		s.LateStarts = s.T.Choose("knob", 4) == 0
 	default:
-		s.PreemptBudget = []int{0, 0, 1, 2}[s.T.Choose("knob", 4)]
+		// (-1: random walk - attempts that are due together, and their reads
+		// of the spool, really interleave)
+		s.PreemptBudget = []int{0, 0, 1, 2, -1}[s.T.Choose("knob", 5)]
 		s.PreemptNum, s.PreemptDen = 1, 8
 	}
 	s.MaxSteps = 60000
@@ -363,7 +395,25 @@ func Run(s *simrt.Sim, a *harness.Args, r *harness.Result) {
 	// shutdown knob (C12): a closer task calls Close concurrently
 	closeMode := 0
 	if a.Prop == "C12" {
-		closeMode = 1 + s.T.Choose("scen", 2) // 1: close concurrently, 2: close late
+		closeMode = 1 + s.T.Choose("scen", 3) // 1: close concurrently, 2: close late, 3: close at a drawn time
+	}
+	if closeMode == 3 {
+		// Close in the middle of the retry schedule (after one, two or more
+		// attempts, with a retry pending): the restarted queue schedules the
+		// pending retry from what the closed one left in the spool
+		d := []time.Duration{sc.Retry / 2, sc.Retry + sc.Retry/10, 2*sc.Retry + sc.Retry/4, 4 * sc.Retry}[s.T.Choose("scen", 4)]
+		s.Spawn("closer", inc1, func() {
+			if d > 0 {
+				simrt.Sleep(d)
+				simrt.Yield("closer:woke")
+			}
+			w.closeRequested = true
+			s.Logf("closer: Close() after %v", d)
+			w.q.Close()
+			w.closeReturned = true
+			w.closeStep[inc1.ID] = s.Steps()
+			s.Logf("closer: Close returned")
+		})
 	}
 	if closeMode == 1 {
 		wait := s.T.Choose("scen", 12)
@@ -381,10 +431,14 @@ func Run(s *simrt.Sim, a *harness.Args, r *harness.Result) {
 	}
 
 	hz := w.horizon()
+	timedClose := closeMode == 3
 	phase := func(limit time.Duration) simrt.StepResult {
-		return s.Run(limit, func() bool { return w.crashed })
+		// (after a timed Close the restart follows at once, not at the horizon:
+		// the point is a restart while retries are still pending)
+		return s.Run(limit, func() bool { return w.crashed || (timedClose && w.closeReturned && w.prodDone >= w.prodTotal) })
 	}
 	res := phase(hz)
+	timedClose = false
 	// crash → restart loop
 	for w.crashed && len(s.Violations()) == 0 {
 		w.crashed = false
